@@ -251,12 +251,10 @@ func checkC07(c *core.Ctx) {
 		}
 		f := model.Flags{Track: 1 + r.Intn(3)}
 		for _, in := range p.Inst {
-			for _, l := range model.Lengths(960, in.Values) {
-				if l == 0 {
-					// a chord of no length strikes at the same tick as the next one: only the order of the events
-					// of a single track tells them apart
-					f.Track = 1
-				}
+			if shortValues(in.Values) {
+				// a chord of no length strikes at the same tick as the next one: only the order of the events
+				// of a single track tells them apart
+				f.Track = 1
 			}
 		}
 		if !p.Effective(f).AllInRange() || !p.TotalBelow(960, 1<<28) {
